@@ -493,11 +493,15 @@ Qed.
 (* (b) http relay: one reader per leg                                   *)
 
 Lemma drain_step f s n m p l rest :
-  frame_req (s_buf s) = QComplete n m ->
+  frame_req (s_buf s) = QComplete n m -> s_bclosed s = false ->
   read_reply (is_head m) (s_bbuf s) (s_bq s ++ match s_replies s with [] => DEFAULT_REPLY | x :: _ => x end) = RGot p l rest ->
   drain (S f) s = drain f (mkSt (skipn n (s_buf s)) l rest (tl (s_replies s)) (s_recvd s + 1)%N
-                                (reser_req m :: s_fwd s) (reser_resp p :: s_del s)).
-Proof. intros H1 H2. cbn [drain]. rewrite H1. cbn [s_bbuf s_bq s_buf s_replies s_recvd s_fwd s_del]. rewrite H2. reflexivity. Qed.
+                                (reser_req m :: s_fwd s) (reser_resp p :: s_del s)
+                                (tl (s_closes s)) (match s_closes s with c :: _ => c | [] => false end)).
+Proof.
+  intros H1 Hc H2. cbn [drain]. rewrite H1, Hc.
+  cbn [s_bbuf s_bq s_buf s_replies s_recvd s_fwd s_del s_closes s_bclosed]. rewrite H2. reflexivity.
+Qed.
 
 Lemma drain_incomplete f s : frame_req (s_buf s) = QIncomplete -> drain (S f) s = (s, None).
 Proof. intros H. cbn [drain]. rewrite H. reflexivity. Qed.
@@ -518,6 +522,7 @@ Lemma drain_fuel_suffices fuel : forall s, (length (s_buf s) < fuel)%nat -> snd 
 Proof.
   induction fuel as [|f IH]; intros s Hl; [lia|]. cbn [drain].
   destruct (frame_req (s_buf s)) as [| |n m] eqn:F; cbn [snd]; try discriminate.
+  destruct (s_bclosed s); cbn [snd]; try discriminate.
   destruct (read_reply _ _ _); cbn [snd]; try discriminate.
   apply IH. cbn [s_buf]. pose proof (frame_req_complete_pos _ _ _ F).
   destruct (s_buf s) as [|x b] eqn:E; [rewrite frame_req_nil in F; discriminate|].
@@ -588,14 +593,16 @@ Lemma drain_spec exs : Forall ex_ok exs ->
   forall fuel s R,
     s_buf s ++ R = stream exs -> (length (s_buf s) < fuel)%nat ->
     s_bbuf s = [] -> concat (s_bq s) = [] -> s_replies s = map x_rsegs exs ->
+    s_closes s = [] -> s_bclosed s = false ->
     exists done rem s',
       exs = done ++ rem /\ drain fuel s = (s', None) /\
       s_buf s = stream done ++ s_buf s' /\ proper (s_buf s') rem /\
       s_bbuf s' = [] /\ concat (s_bq s') = [] /\ s_replies s' = map x_rsegs rem /\
+      s_closes s' = [] /\ s_bclosed s' = false /\
       s_recvd s' = (s_recvd s + N.of_nat (length done))%N /\
       s_fwd s' = rev (fwd_of done) ++ s_fwd s /\ s_del s' = rev (del_of done) ++ s_del s.
 Proof.
-  induction 1 as [|e r He Hr IH]; intros fuel s R Hs Hf Hbb Hbq Hrep.
+  induction 1 as [|e r He Hr IH]; intros fuel s R Hs Hf Hbb Hbq Hrep Hcl Hbc.
   - unfold stream in Hs. cbn [map concat] in Hs. apply app_eq_nil in Hs as [Hb _].
     destruct fuel as [|f]; [lia|].
     exists [], [], s. rewrite drain_incomplete by (rewrite Hb; reflexivity).
@@ -615,24 +622,28 @@ Proof.
         by (rewrite Hsplit; apply Hsd).
       destruct (backend_leg _ _ _ Hsr (s_bq s ++ x_rsegs e) []) as (rest & Hrr & Hrest0).
       { cbn [app]. rewrite concat_app, Hbq, Hrc. reflexivity. }
-      rewrite (drain_step f s _ _ (x_resp e) [] rest Hfr).
+      rewrite (drain_step f s _ _ (x_resp e) [] rest Hfr Hbc).
       2: { rewrite Hbb, Hrep. cbn [map]. exact Hrr. }
       fold B'.
       pose proof (sd_req_nonempty _ _ Hsd) as Hne.
       assert (Hlen : (length B' < f)%nat).
       { unfold B'. rewrite skipn_length. destruct (x_msg e); [congruence|]. cbn [length] in *. lia. }
+      rewrite Hcl. cbn [tl].
       destruct (IH f (mkSt B' [] rest (tl (s_replies s)) (s_recvd s + 1)%N
-                         (reser_req (x_req e) :: s_fwd s) (reser_resp (x_resp e) :: s_del s)) R)
-        as (done & rem & s' & Hex & Hd & Hb & Hpr & Hbb' & Hbq' & Hrep' & Hrc' & Hfw & Hdl); cbn [s_buf s_bbuf s_bq s_replies].
+                         (reser_req (x_req e) :: s_fwd s) (reser_resp (x_resp e) :: s_del s) [] false) R)
+        as (done & rem & s' & Hex & Hd & Hb & Hpr & Hbb' & Hbq' & Hrep' & Hcl' & Hbc' & Hrc' & Hfw & Hdl); cbn [s_buf s_bbuf s_bq s_replies s_closes s_bclosed].
       * exact Hrest.
       * exact Hlen.
       * reflexivity.
       * exact Hrest0.
       * rewrite Hrep. reflexivity.
+      * reflexivity.
+      * reflexivity.
       * exists (e :: done), rem, s'. cbn [s_buf s_recvd s_fwd s_del] in *.
         split; [rewrite Hex; reflexivity|]. split; [exact Hd|].
         split; [rewrite Hsplit at 1; unfold stream in *; cbn [map concat]; rewrite <- app_assoc, <- Hb; reflexivity|].
         split; [exact Hpr|]. split; [exact Hbb'|]. split; [exact Hbq'|]. split; [exact Hrep'|].
+        split; [exact Hcl'|]. split; [exact Hbc'|].
         unfold fwd_of, del_of in *. cbn [map rev length].
         split; [rewrite Hrc'; lia|]. rewrite Hfw, Hdl, <- !app_assoc. split; reflexivity.
 Qed.
@@ -693,13 +704,14 @@ Lemma relay_gen its : forall done rem s,
   Forall ex_ok rem ->
   s_buf s ++ stream_of its = stream rem -> proper (s_buf s) rem ->
   s_bbuf s = [] -> concat (s_bq s) = [] -> s_replies s = map x_rsegs rem ->
+  s_closes s = [] -> s_bclosed s = false ->
   s_recvd s = N.of_nat (length done) ->
   waits_ok (lens_of (done ++ rem)) (length (stream done) + length (s_buf s)) its ->
   exists s', run its s = (s', EEof) /\
     s_fwd s' = rev (fwd_of rem) ++ s_fwd s /\ s_del s' = rev (del_of rem) ++ s_del s /\
     s_recvd s' = N.of_nat (length done + length rem).
 Proof.
-  induction its as [|it its IH]; intros done rem s Hok Hs Hp Hbb Hbq Hrep Hrc Hw.
+  induction its as [|it its IH]; intros done rem s Hok Hs Hp Hbb Hbq Hrep Hcl Hbc Hrc Hw.
   - cbn [stream_of] in Hs. rewrite app_nil_r in Hs.
     destruct rem as [|e rem].
     + cbn [proper] in Hp. exists s. cbn [run]. rewrite Hp.
@@ -710,12 +722,14 @@ Proof.
   - destruct it as [b|k].
     + cbn [stream_of] in Hs. cbn [waits_ok] in Hw. rewrite run_seg.
       destruct (drain_spec rem Hok (S (length (s_buf s ++ b))) (set_buf s (s_buf s ++ b)) (stream_of its))
-        as (done2 & rem2 & s' & Hex & Hd & Hb & Hpr & Hbb' & Hbq' & Hrep' & Hrc' & Hfw & Hdl).
+        as (done2 & rem2 & s' & Hex & Hd & Hb & Hpr & Hbb' & Hbq' & Hrep' & Hcl' & Hbc' & Hrc' & Hfw & Hdl).
       { cbn [set_buf s_buf]. rewrite <- app_assoc. exact Hs. }
       { cbn [set_buf s_buf]. lia. }
       { exact Hbb. }
       { exact Hbq. }
       { exact Hrep. }
+      { exact Hcl. }
+      { exact Hbc. }
       rewrite Hd. cbn [set_buf s_buf s_recvd s_fwd s_del] in *.
       subst rem. apply Forall_app in Hok as [_ Hok2].
       destruct (IH (done ++ done2) rem2 s' Hok2) as (s'' & Hrun & Hf2 & Hd2 & Hn2); auto.
@@ -747,11 +761,82 @@ Lemma relay_all_segmentations exs its :
     rev (s_fwd s) = fwd_of exs /\ rev (s_del s) = del_of exs /\ s_recvd s = N.of_nat (length exs).
 Proof.
   intros Hok Hs Hw.
-  destruct (relay_gen its [] exs (st0 (map x_rsegs exs)) Hok) as (s & Hr & Hf & Hd & Hn); cbn [st0 s_buf s_bbuf s_bq s_replies s_recvd]; auto.
+  destruct (relay_gen its [] exs (st0 (map x_rsegs exs)) Hok) as (s & Hr & Hf & Hd & Hn); unfold st0, st0c; cbn [s_buf s_bbuf s_bq s_replies s_recvd s_closes s_bclosed]; auto.
   - destruct exs as [|e r]; cbn [proper]; [reflexivity|].
     inversion Hok as [|? ? [Hsd _] _]. pose proof (sd_req_nonempty _ _ Hsd). destruct (x_msg e); [congruence|cbn [length]; lia].
-  - exists s. cbn [st0 s_fwd s_del] in *. rewrite Hf, Hd, !app_nil_r, !rev_involutive. repeat split; auto.
+  - exists s. unfold st0, st0c in *. cbn [s_fwd s_del] in *. rewrite Hf, Hd, !app_nil_r, !rev_involutive. repeat split; auto.
 Qed.
+
+(* what has been relayed stays relayed: whatever comes afterwards - a malformed or
+   incomplete next request, a backend that has closed or answers garbage, the client going
+   away - the requests forwarded and the replies delivered so far are only ever extended *)
+Lemma drain_monotone fuel : forall s,
+  exists mf md, s_fwd (fst (drain fuel s)) = mf ++ s_fwd s /\ s_del (fst (drain fuel s)) = md ++ s_del s.
+Proof.
+  induction fuel as [|f IH]; intros s; [exists [], []; split; reflexivity|]. cbn [drain].
+  destruct (frame_req (s_buf s)) as [| |n m]; try (exists [], []; split; reflexivity).
+  destruct (s_bclosed s); [exists [], []; split; reflexivity|].
+  destruct (read_reply _ _ _) as [p l rest| |].
+  - match goal with |- context [drain f ?x] => destruct (IH x) as (mf & md & A & B) end.
+    rewrite A, B. cbn [s_fwd s_del].
+    exists (mf ++ [reser_req m]), (md ++ [reser_resp p]). rewrite <- !app_assoc. split; reflexivity.
+  - exists [reser_req m], []. split; reflexivity.
+  - exists [reser_req m], []. split; reflexivity.
+Qed.
+
+Lemma run_monotone its : forall s,
+  exists mf md, s_fwd (fst (run its s)) = mf ++ s_fwd s /\ s_del (fst (run its s)) = md ++ s_del s.
+Proof.
+  induction its as [|it r IH]; intros s; [exists [], []; split; reflexivity|].
+  destruct it as [b|k].
+  - rewrite run_seg.
+    destruct (drain_monotone (S (length (s_buf s ++ b))) (set_buf s (s_buf s ++ b))) as (mf & md & A & B).
+    destruct (drain _ _) as [s2 [e|]]; cbn [fst] in *.
+    + exists mf, md. split; assumption.
+    + destruct (IH s2) as (mf2 & md2 & A2 & B2). rewrite A2, B2, A, B. cbn [set_buf s_fwd s_del].
+      exists (mf2 ++ mf), (md2 ++ md). rewrite <- !app_assoc. split; reflexivity.
+  - cbn [run]. destruct (k <=? s_recvd s)%N; [apply IH|exists [], []; split; reflexivity].
+Qed.
+
+Lemma drain_not_eof fuel : forall s s', drain fuel s <> (s', Some EEof).
+Proof.
+  induction fuel as [|f IH]; intros s s'; cbn [drain]; [intros H; inversion H|].
+  destruct (frame_req (s_buf s)); try (intros H; inversion H; fail).
+  destruct (s_bclosed s); [intros H; inversion H|].
+  destruct (read_reply _ _ _); try (intros H; inversion H; fail). apply IH.
+Qed.
+
+Lemma run_app_eof a : forall s s', run a s = (s', EEof) -> forall b, run (a ++ b) s = run b s'.
+Proof.
+  induction a as [|it r IH]; intros s s' H b.
+  - cbn [run] in H. destruct (s_buf s) eqn:E; inversion H; subst. reflexivity.
+  - destruct it as [x|k]; cbn [app].
+    + rewrite run_seg in H |- *. destruct (drain _ _) as [s2 [e|]] eqn:D.
+      * inversion H; subst. exfalso. exact (drain_not_eof _ _ _ D).
+      * apply IH, H.
+    + cbn [run] in H |- *. destruct (k <=? s_recvd s)%N; [apply IH, H|inversion H].
+Qed.
+
+(* every reply the backend gave for a complete request reaches the client, whole and in
+   order, whatever follows the requests in the client's stream (from a write of its own on):
+   more requests, a malformed one, an incomplete one, nothing *)
+Lemma replies_survive_failing_next exs its tail :
+  Forall ex_ok exs -> stream_of its = stream exs -> waits_ok (lens_of exs) 0 its ->
+  exists more_f more_d,
+    rev (s_fwd (fst (run (its ++ tail) (st0 (map x_rsegs exs))))) = fwd_of exs ++ more_f /\
+    rev (s_del (fst (run (its ++ tail) (st0 (map x_rsegs exs))))) = del_of exs ++ more_d.
+Proof.
+  intros Hok Hs Hw. destruct (relay_all_segmentations exs its Hok Hs Hw) as (s & Hr & Hf & Hd & _).
+  rewrite (run_app_eof _ _ _ Hr tail).
+  destruct (run_monotone tail s) as (mf & md & A & B). rewrite A, B, !rev_app_distr, Hf, Hd.
+  exists (rev mf), (rev md). split; reflexivity.
+Qed.
+
+(* once the backend has closed its connection nothing more is relayed - and nothing is taken back *)
+Lemma backend_closed_keeps_replies f s n m :
+  frame_req (s_buf s) = QComplete n m -> s_bclosed s = true -> drain (S f) s = (s, Some EBackendClosed).
+Proof. intros H1 H2. cbn [drain]. rewrite H1, H2. reflexivity. Qed.
+
 (* the same for a reply with a declared length, or without a body *)
 Lemma frame_resp_sd h raw p :
   frame_resp h raw = PComplete (length raw) p -> (p_chunked p = false \/ h = true \/ no_body_status (p_status p) = true) ->
@@ -841,14 +926,39 @@ Lemma copy_stream_behind_server peeked accepted segs reply : local_kind accepted
 Proof. intros H. unfold copy_model. rewrite switch_behind_server. unfold type_switch. rewrite H. reflexivity. Qed.
 
 (* copy, datagram: the datagram, then one reply *)
+Lemma dgram_read_whole peeked accepted d : has_peek accepted = false ->
+  (peeked = false \/ (length d <= PEEK)%nat) -> dgram_read (server_wrap peeked accepted) d = d.
+Proof.
+  intros Ha Hp. unfold dgram_read, server_wrap. destruct peeked; cbn [has_peek].
+  - destruct Hp as [Hp|Hl]; [discriminate|]. apply firstn_all2, Hl.
+  - rewrite Ha. reflexivity.
+Qed.
+
 Lemma copy_datagram_behind_server peeked accepted d reply more : local_kind accepted = AUdp ->
-  copy_model (server_wrap peeked accepted) [d] (reply :: more) = mkRaw 1 [d ++ []] [reply] 1.
-Proof. intros H. unfold copy_model. rewrite switch_behind_server. unfold type_switch. rewrite H. reflexivity. Qed.
+  has_peek accepted = false -> (peeked = false \/ (length d <= PEEK)%nat) ->
+  copy_model (server_wrap peeked accepted) [d] (reply :: more) = mkRaw 1 [d] [reply] 1.
+Proof.
+  intros H Ha Hp. unfold copy_model. rewrite switch_behind_server. unfold type_switch. rewrite H.
+  cbn [concat]. rewrite app_nil_r, (dgram_read_whole _ _ _ Ha Hp). reflexivity.
+Qed.
+
+(* defect of the unchanged code: behind the peek wrapper the single Read of a datagram service
+   returns at most the peeked 1024 bytes; the rest of the datagram is never forwarded *)
+Lemma datagram_cut_on_shared_port_refuted :
+  exists d, w_backend (copy_model (server_wrap true KDummyUdp) [d] [[1]%N]) <> [d].
+Proof.
+  exists (repeat 7%N 1025). intros H.
+  apply (f_equal (fun l => length (concat l))) in H. vm_compute in H. discriminate.
+Qed.
 
 (* dns-proxy, datagram: forwarded, answered, recorded - whether or not it is a DNS message *)
 Lemma dns_datagram_behind_server peeked accepted d parses reply more : local_kind accepted = AUdp ->
-  dns_model (server_wrap peeked accepted) [d] parses (reply :: more) = mkRaw 1 [d ++ []] [reply] 1.
-Proof. intros H. unfold dns_model. rewrite switch_behind_server. unfold type_switch. rewrite H. reflexivity. Qed.
+  has_peek accepted = false -> (peeked = false \/ (length d <= PEEK)%nat) ->
+  dns_model (server_wrap peeked accepted) [d] parses (reply :: more) = mkRaw 1 [d] [reply] 1.
+Proof.
+  intros H Ha Hp. unfold dns_model. rewrite switch_behind_server. unfold type_switch. rewrite H.
+  cbn [concat]. rewrite app_nil_r, (dgram_read_whole _ _ _ Ha Hp). reflexivity.
+Qed.
 
 (* io.ReadFull over any segmentation: the first n bytes of the stream, the rest stays *)
 Lemma take_concat segs : forall n, (n <= length (concat segs))%nat ->
